@@ -6,7 +6,7 @@ import tempfile
 from collections import defaultdict
 
 from engine import REPO, gen_states, pool_map
-from readers import read_out, join_lines, gaf_record, read_text, run_cli, write_text, workdir, lines_of
+from readers import zname, read_out, join_lines, gaf_record, read_text, run_cli, write_text, workdir, lines_of
 
 EXTRA = ["tp:A:P", "NM:i:-3", "zd:Z:a:b c#1"]
 
@@ -107,7 +107,7 @@ def run_graph(job):
             recs = records_for(segs, w, wid, item[2] if len(item) > 2 else None)
             spans.append((wid, w, len(lines), len(lines) + len(recs)))
             lines += recs
-        u = os.path.join(d, "u.gaf" + (".gz" if gaf_storage == "bgzf" else ""))
+        u = os.path.join(d, zname("u.gaf", gid) if gaf_storage == "bgzf" else "u.gaf")
         write_text(u, join_lines(lines, gid), gaf_storage, block=700)
         s, u2, s2 = (os.path.join(d, x) for x in ("s.gaf", "u2.gaf", "s2.gaf"))
         status = "ok"
